@@ -136,6 +136,21 @@ func c15Bases(c *vlib.Ctx) []CfgLit {
 						if !c.Thorough() && cred && (len(m) == 0 || len(r) == 0) {
 							continue
 						}
+						if !c.Thorough() {
+							// quick tier: the long realistic lists appear all together, or one at a time next to
+							// empty other lists
+							rich, nonEmpty := 0, 0
+							for _, l := range [][]string{o, m, q, r} {
+								if len(l) >= 5 {
+									rich++
+								} else if len(l) > 1 {
+									nonEmpty++
+								}
+							}
+							if rich == 2 || rich == 3 || rich == 1 && nonEmpty > 0 {
+								continue
+							}
+						}
 						out = append(out, CfgLit{Origins: o, Methods: m, RequestHeaders: q, ResponseHeaders: r, Credentialed: cred, TolInsecure: true, TolPSL: true, MaxAge: 30})
 					}
 				}
